@@ -163,7 +163,7 @@ META = {
                "raising": "9 raising last statements x no_xfail x seeded file x black",
                "assertions": "none | generated by the real observer | generated with allow_stale_assertions | one of 36 hand-made assertions "
                              "on the binding statement or the next binding statement",
-               "suites": "two test cases from 14 kinds (quick: first test from 8 kinds)",
+               "suites": "two test cases from 14 kinds (quick: both from the first 8 kinds)",
                "factory": "TestFactory products for seeds 0..29 (thorough 0..149) x 1..3 insertions",
                "pipeline": "format_with_black on/off, create_assertions on/off, no_xfail on/off, seed None/7"},
     "outside": ["test files not written by Pynguin's exporter (hand-written or LLM seeds), test cases that rebind a variable, compound statements "
